@@ -7,10 +7,15 @@
     store being the state of the reference consumer [stdio_fold] that folds
     the reports of every [process_msg] (Result.Changed) in order.  They hold
     for EVERY type of specification sources, reaction function, decoder,
-    sound equality test on sources and order oracle that permutes its
-    argument; for the restart theorems walks end at named nodes (as every
+    predicate [resolves] on sources (which sources ResolveSpecSource finds a
+    specification for: a source with neither "inline" nor "url" resolves to
+    nothing, without error, and leaves the machine without specification -
+    [C15_unresolvable_source_inert]), sound equality test on sources and
+    order oracle that permutes its argument; for the restart theorems walks end at named nodes (as every
     walk of core.Spec does).  [live_view] / [store_view] (Spec/SioSpec.v):
-    specification source, node, bindings of a machine, [None] when absent.
+    specification source, node, bindings of a machine, [None] when absent;
+    the source in [store_view] is what the stored source resolves to (with
+    [resolves] constantly true: the stored source itself).
 
     Outside the model ([Unmodelled]): operations on the two service
     machines.  A message to the captain that is no crew operation is INSIDE
@@ -27,7 +32,7 @@
     must.) *)
 From Coq Require Import List String Permutation.
 From Sheens Require Import Model.SioRecorder Spec.SioSpec Proofs.SioRouting Proofs.SioPersist Proofs.SioRestart
-     Proofs.SioCommute Proofs.SioRecorderFacts Proofs.SioHistory Proofs.SioUnwedged.
+     Proofs.SioCommute Proofs.SioRecorderFacts Proofs.SioHistory Proofs.SioUnwedged Proofs.SioUnresolved.
 Import ListNotations.
 Open Scope string_scope.
 
@@ -35,42 +40,43 @@ Section C15.
 Variable S : Type.
 Variable react : S -> mid -> mstate -> json -> option mstate * list json.
 Variable decode_src : json -> option S.
+Variable resolves : S -> bool.
 Variable src_eqb : S -> S -> bool.
 Variable ord : forall A : Type, list (mid * A) -> list (mid * A).
 Hypothesis ord_perm : forall A l, Permutation (ord A l) l.
 Hypothesis src_eqb_sound : forall a b, src_eqb a b = true -> a = b.
 Hypothesis react_named : forall s m st msg st', fst (react s m st msg) = Some st' -> ms_node st' <> "".
-Local Notation run_history := (run_history S react decode_src src_eqb ord).
-Local Notation boot := (boot S ord).
+Local Notation run_history := (run_history S react decode_src resolves src_eqb ord).
+Local Notation boot := (boot S resolves ord).
 
 (** after any history that ends with a message, the store that applied every
     report in order is exactly the live crew: same machines, same
     specification sources, same nodes and bindings, deleted machines absent *)
 Theorem C15_store_tracks_crew : forall fuel h c store,
   run_history fuel (init_crew S, []) h = Done (c, store) -> ends_with_msg S h ->
-  forall m, store_view S store m = live_view S c m.
-Proof. exact (store_tracks_crew S react decode_src src_eqb ord ord_perm src_eqb_sound). Qed.
+  forall m, store_view S resolves store m = live_view S c m.
+Proof. exact (store_tracks_crew S react decode_src resolves src_eqb ord ord_perm src_eqb_sound). Qed.
 
 (** at any point of any history: the store with the changes that are cached
     but not yet reported applied to it is the live crew *)
 Theorem C15_store_tracks_crew_pending : forall fuel h c store,
   run_history fuel (init_crew S, []) h = Done (c, store) ->
-  forall m, pending_view S c store m = live_view S c m.
-Proof. exact (store_tracks_crew_pending S react decode_src src_eqb ord ord_perm src_eqb_sound). Qed.
+  forall m, pending_view S resolves c store m = live_view S c m.
+Proof. exact (store_tracks_crew_pending S react decode_src resolves src_eqb ord ord_perm src_eqb_sound). Qed.
 
 (** a crew booted from the store at a message boundary has the same machines *)
 Theorem C15_boot_equiv : forall fuel h c store,
   run_history fuel (init_crew S, []) h = Done (c, store) -> ends_with_msg S h ->
   machines S (boot store) = machines S c
   /\ forall m, live_view S (boot store) m = live_view S c m.
-Proof. exact (boot_equiv S react decode_src src_eqb ord ord_perm src_eqb_sound react_named). Qed.
+Proof. exact (boot_equiv S react decode_src resolves src_eqb ord ord_perm src_eqb_sound react_named). Qed.
 
 (** the captain of a crew that a history reaches is never inert: no message,
     operation or not, and no direct call leaves anything in its bindings
     (the repair of D56) *)
 Theorem C15_captain_never_inert : forall fuel h c store,
   run_history fuel (init_crew S, []) h = Done (c, store) -> wedged S c = false.
-Proof. exact (reachable_unwedged S react decode_src src_eqb ord). Qed.
+Proof. exact (reachable_unwedged S react decode_src resolves src_eqb ord). Qed.
 
 (** ... the same store keeps tracking it ([inv]: the invariant behind
     [C15_store_tracks_crew]), and on every later history it produces the same
@@ -80,25 +86,47 @@ Proof. exact (reachable_unwedged S react decode_src src_eqb ord). Qed.
 Theorem C15_restart_unobservable : forall fuel h c store,
   run_history fuel (init_crew S, []) h = Done (c, store) -> ends_with_msg S h ->
   core_eq S (boot store) c
-  /\ inv S (boot store) store
+  /\ inv S resolves (boot store) store
   /\ forall fuel' h2,
-       orel (outputs_sim S) (run_outputs S react decode_src src_eqb ord fuel' c h2)
-            (run_outputs S react decode_src src_eqb ord fuel' (boot store) h2).
-Proof. exact (restart_unobservable_reachable S react decode_src src_eqb ord ord_perm src_eqb_sound react_named). Qed.
+       orel (outputs_sim S) (run_outputs S react decode_src resolves src_eqb ord fuel' c h2)
+            (run_outputs S react decode_src resolves src_eqb ord fuel' (boot store) h2).
+Proof. exact (restart_unobservable_reachable S react decode_src resolves src_eqb ord ord_perm src_eqb_sound react_named). Qed.
 
 (** the same for ANY crew value, reachable or not: its machines a key-sorted
     list of machines at named nodes ([good]), nothing cached (a message
     boundary), a store that tracks it ([inv]).  The captain's state is not
     part of what a crew reports, so here the hypothesis on the captain stays *)
 Theorem C15_restart_unobservable_any_crew : forall c store,
-  good S c -> inv S c store -> cache S c = [] ->
+  good S c -> inv S resolves c store -> cache S c = [] ->
   wedged S c = false ->
   core_eq S (boot store) c
-  /\ inv S (boot store) store
+  /\ inv S resolves (boot store) store
   /\ forall fuel' h2,
-       orel (outputs_sim S) (run_outputs S react decode_src src_eqb ord fuel' c h2)
-            (run_outputs S react decode_src src_eqb ord fuel' (boot store) h2).
-Proof. exact (restart_unobservable_any_crew S react decode_src src_eqb ord ord_perm). Qed.
+       orel (outputs_sim S) (run_outputs S react decode_src resolves src_eqb ord fuel' c h2)
+            (run_outputs S react decode_src resolves src_eqb ord fuel' (boot store) h2).
+Proof. exact (restart_unobservable_any_crew S react decode_src resolves src_eqb ord ord_perm). Qed.
+
+(** a source that resolves to no specification: at any point of any history,
+    SetMachine with such a source leaves the machine without source - no
+    message is presented to it, the crew stays as it is - while the pending
+    change, and after the next report the consumer's store, carry the source
+    as given; the crew booted from that store has the same machines, hence
+    the same inert machine *)
+Theorem C15_unresolvable_source_inert : forall fuel h c store m s st c2 out tm,
+  run_history fuel (init_crew S, []) h = Done (c, store) ->
+  is_service m = false -> resolves s = false ->
+  get_changed S src_eqb ord (set_machine S resolves c m (Some s) st) = (c2, out, tm) ->
+  let c1 := set_machine S resolves c m (Some s) st in
+  let store2 := stdio_fold S store out in
+  (exists mc, aget m (machines S c1) = Some mc /\ m_src S mc = None)
+  /\ (forall msg, present S react decode_src resolves c1 msg m = Done (c1, false, None))
+  /\ c_src S (cache_get S c1 m) = Some s
+  /\ (exists e, aget m store2 = Some e /\ e_src S e = Some s)
+  /\ machines S (boot store2) = machines S c1
+  /\ (forall msg, present S react decode_src resolves (boot store2) msg m = Done (boot store2, false, None)).
+Proof.
+  exact (unresolvable_source_inert_reachable S react decode_src resolves src_eqb ord ord_perm src_eqb_sound react_named).
+Qed.
 
 (** the part of the commutation clause that is a theorem: whatever order the
     map iteration gives the machines of a round, the same machines see the
@@ -109,13 +137,13 @@ Theorem C15_round_order_irrelevant :
   (forall A l, Permutation (ord1 A l) l) -> (forall A l, Permutation (ord2 A l) l) ->
   forall c msg c1 rd1,
   wf_crew S c -> mixes_captain msg = false ->
-  run_machines S react decode_src ord1 c msg = Done (c1, rd1) ->
+  run_machines S react decode_src resolves ord1 c msg = Done (c1, rd1) ->
   exists c2 rd2,
-    run_machines S react decode_src ord2 c msg = Done (c2, rd2)
+    run_machines S react decode_src resolves ord2 c msg = Done (c2, rd2)
     /\ crew_pw S c1 c2
     /\ Permutation (rd_recips S rd1) (rd_recips S rd2)
     /\ Permutation (rd_batches S rd1) (rd_batches S rd2).
-Proof. exact (round_order_irrelevant S react decode_src). Qed.
+Proof. exact (round_order_irrelevant S react decode_src resolves). Qed.
 End C15.
 
 Print Assumptions C15_store_tracks_crew.
@@ -124,6 +152,7 @@ Print Assumptions C15_boot_equiv.
 Print Assumptions C15_captain_never_inert.
 Print Assumptions C15_restart_unobservable.
 Print Assumptions C15_restart_unobservable_any_crew.
+Print Assumptions C15_unresolvable_source_inert.
 Print Assumptions C15_round_order_irrelevant.
 
 (** Full strength across schedules is false without the property's
@@ -147,10 +176,10 @@ Print Assumptions C15_restart_two_schedules_refuted.
     reaches it) and the empty store meet the other hypotheses, and the crew
     booted from the store executes an operation that this value ignores *)
 Theorem C15_any_crew_needs_captain :
-  good rcfg wedged_empty_crew /\ inv rcfg wedged_empty_crew [] /\ cache rcfg wedged_empty_crew = []
+  good rcfg wedged_empty_crew /\ inv rcfg rresolves wedged_empty_crew [] /\ cache rcfg wedged_empty_crew = []
   /\ ~ core_eq rcfg (r_boot []) wedged_empty_crew
-  /\ exists h2, ~ orel (outputs_sim rcfg) (run_outputs rcfg rreact rdecode rcfg_eqb ord_id 10 wedged_empty_crew h2)
-                       (run_outputs rcfg rreact rdecode rcfg_eqb ord_id 10 (r_boot []) h2).
+  /\ exists h2, ~ orel (outputs_sim rcfg) (run_outputs rcfg rreact rdecode rresolves rcfg_eqb ord_id 10 wedged_empty_crew h2)
+                       (run_outputs rcfg rreact rdecode rresolves rcfg_eqb ord_id 10 (r_boot []) h2).
 Proof. exact any_crew_needs_unwedged. Qed.
 Print Assumptions C15_any_crew_needs_captain.
 
@@ -158,11 +187,11 @@ Print Assumptions C15_any_crew_needs_captain.
     state of an existing machine; creating a machine without specification
     and state was no change) falsifies [C15_store_tracks_crew] *)
 Theorem C15_refuted_prefix_D13 :
-  exists c store, d13_prefix_run = Done (c, store) /\ store_view rcfg store "a" <> live_view rcfg c "a".
+  exists c store, d13_prefix_run = Done (c, store) /\ store_view rcfg rresolves store "a" <> live_view rcfg c "a".
 Proof. exact d13_prefix_refuted. Qed.
 Theorem C15_refuted_prefix_D42 :
   exists c store, flush (set_machine_prefix (init_crew rcfg) "z" None None, []) = Done (c, store)
-                  /\ store_view rcfg store "z" <> live_view rcfg c "z".
+                  /\ store_view rcfg rresolves store "z" <> live_view rcfg c "z".
 Proof. exact d42_prefix_refuted. Qed.
 
 (** non-vacuity on the instance the correspondence run uses (its three
@@ -189,7 +218,7 @@ Example C15_nonvacuous :
     /\ live_view rcfg c "a"
        = Some (Some (mk_rcfg "L2" RRev),
                mk_ms "flip" [("by", JStr "L2"); ("log", JArr [JArr [JStr "all"; JNull]])])
-    /\ store_view rcfg store "a" = live_view rcfg c "a"
+    /\ store_view rcfg rresolves store "a" = live_view rcfg c "a"
     /\ machines rcfg (r_boot store) = machines rcfg c
     /\ core_eq rcfg (r_boot store) c.
 Proof.
@@ -199,10 +228,10 @@ Proof.
   assert (E : ends_with_msg rcfg c15_history).
   { exists (removelast c15_history), (JObj [("tag", JStr "all")]). reflexivity. }
   split; [exact E|].
-  pose proof (C15_captain_never_inert rcfg rreact rdecode rcfg_eqb ord_id _ _ _ _ H) as W.
-  pose proof (C15_store_tracks_crew rcfg rreact rdecode rcfg_eqb ord_id ord_id_perm rcfg_eqb_sound _ _ _ _ H E "a") as T.
-  pose proof (C15_boot_equiv rcfg rreact rdecode rcfg_eqb ord_id ord_id_perm rcfg_eqb_sound rreact_named _ _ _ _ H E) as [B _].
-  pose proof (C15_restart_unobservable rcfg rreact rdecode rcfg_eqb ord_id ord_id_perm rcfg_eqb_sound rreact_named
+  pose proof (C15_captain_never_inert rcfg rreact rdecode rresolves rcfg_eqb ord_id _ _ _ _ H) as W.
+  pose proof (C15_store_tracks_crew rcfg rreact rdecode rresolves rcfg_eqb ord_id ord_id_perm rcfg_eqb_sound _ _ _ _ H E "a") as T.
+  pose proof (C15_boot_equiv rcfg rreact rdecode rresolves rcfg_eqb ord_id ord_id_perm rcfg_eqb_sound rreact_named _ _ _ _ H E) as [B _].
+  pose proof (C15_restart_unobservable rcfg rreact rdecode rresolves rcfg_eqb ord_id ord_id_perm rcfg_eqb_sound rreact_named
                 _ _ _ _ H E) as [R _].
   split; [exact W|].
   vm_compute in H. injection H as <- <-.
@@ -230,11 +259,11 @@ Example C15_nonvacuous_not_an_op :
     /\ live_view rcfg c "a"
        = Some (Some (mk_rcfg "L0" RFwd),
                mk_ms "flip" [("by", JStr "L0"); ("log", JArr [JArr [JStr "one"; JNull]])])
-    /\ store_view rcfg store "a" = live_view rcfg c "a"
+    /\ store_view rcfg rresolves store "a" = live_view rcfg c "a"
     /\ core_eq rcfg (r_boot store) c
     /\ exists c2 outs,
-         run_outputs rcfg rreact rdecode rcfg_eqb ord_id 50 (r_boot store) c15_later = Done (c2, outs)
-         /\ run_outputs rcfg rreact rdecode rcfg_eqb ord_id 50 c c15_later = Done (c2, outs)
+         run_outputs rcfg rreact rdecode rresolves rcfg_eqb ord_id 50 (r_boot store) c15_later = Done (c2, outs)
+         /\ run_outputs rcfg rreact rdecode rresolves rcfg_eqb ord_id 50 c c15_later = Done (c2, outs)
          /\ is_some (live_view rcfg c2 "b") = true
          /\ outs = [[]; [[JStr "echo"]; [JStr "echo"]]].
 Proof.
@@ -243,12 +272,96 @@ Proof.
   exists c, store. split; [reflexivity|].
   assert (E : ends_with_msg rcfg c15_history_not_an_op).
   { eexists (removelast c15_history_not_an_op), _. reflexivity. }
-  pose proof (C15_captain_never_inert rcfg rreact rdecode rcfg_eqb ord_id _ _ _ _ H) as W.
-  pose proof (C15_store_tracks_crew rcfg rreact rdecode rcfg_eqb ord_id ord_id_perm rcfg_eqb_sound _ _ _ _ H E "a") as T.
-  pose proof (C15_restart_unobservable rcfg rreact rdecode rcfg_eqb ord_id ord_id_perm rcfg_eqb_sound rreact_named
+  pose proof (C15_captain_never_inert rcfg rreact rdecode rresolves rcfg_eqb ord_id _ _ _ _ H) as W.
+  pose proof (C15_store_tracks_crew rcfg rreact rdecode rresolves rcfg_eqb ord_id ord_id_perm rcfg_eqb_sound _ _ _ _ H E "a") as T.
+  pose proof (C15_restart_unobservable rcfg rreact rdecode rresolves rcfg_eqb ord_id ord_id_perm rcfg_eqb_sound rreact_named
                 _ _ _ _ H E) as (R & _ & _).
   split; [exact W|].
   vm_compute in H. injection H as <- <-.
   split; [reflexivity|]. split; [exact T|]. split; [exact R|].
+  vm_compute. eexists _, _. repeat split.
+Qed.
+
+(** a source that is only a name resolves to nothing ([RNamed], [rresolves]):
+    a is created as a forwarding recorder and reacts to a message; then its
+    specification is replaced by the source {"name":"N0"}.  The live machine
+    has no source any more and sees no message, the pending change and then
+    the store carry the source as given, and the crew booted from the store
+    has the same inert machine.  Through the captain (the source decoded
+    from the operation) the same: the message after the replacement emits
+    nothing, store and crew agree, the booted crew is the crew; a later
+    inline source brings the machine back. *)
+Definition c15_named : rcfg := mk_rcfg "N0" RNamed.
+Definition c15_history_reacts : list (hop rcfg) :=
+  [OpMsg (JObj [("to", JStr "captain"); ("update", JObj [("a", c15_spec "L0" "fwd")])]);
+   OpMsg (JObj [("tag", JStr "one"); ("then", JArr [JObj [("tag", JStr "x"); ("to", JStr "nobody")]]); ("to", JStr "a")])].
+Definition c15_msg_two : json :=
+  JObj [("tag", JStr "two"); ("then", JArr [JObj [("tag", JStr "y"); ("to", JStr "nobody")]]); ("to", JStr "a")].
+
+Example C15_unresolvable_nonvacuous :
+  rresolves c15_named = false
+  /\ exists c store c2 out tm,
+    r_run_history 50 (init_crew rcfg, []) c15_history_reacts = Done (c, store)
+    /\ live_view rcfg c "a"
+       = Some (Some (mk_rcfg "L0" RFwd), mk_ms "flip" [("by", JStr "L0"); ("log", JArr [JArr [JStr "one"; JNull]])])
+    (* before: a reacts *)
+    /\ (exists c', present rcfg rreact rdecode rresolves c c15_msg_two "a"
+                   = Done (c', true, Some [JObj [("from", JStr "a"); ("tag", JStr "y"); ("to", JStr "nobody")]]))
+    /\ get_changed rcfg rcfg_eqb ord_id (r_set_machine c "a" (Some c15_named) None) = (c2, out, tm)
+    /\ let c1 := r_set_machine c "a" (Some c15_named) None in
+       let store2 := stdio_fold rcfg store out in
+       live_view rcfg c1 "a" = Some (None, mk_ms "flip" [("by", JStr "L0"); ("log", JArr [JArr [JStr "one"; JNull]])])
+       /\ present rcfg rreact rdecode rresolves c1 c15_msg_two "a" = Done (c1, false, None)
+       /\ c_src rcfg (cache_get rcfg c1 "a") = Some c15_named
+       /\ option_map (e_src rcfg) (aget "a" store2) = Some (Some c15_named)
+       /\ store_view rcfg rresolves store2 "a" = live_view rcfg c1 "a"
+       /\ machines rcfg (r_boot store2) = machines rcfg c1
+       /\ present rcfg rreact rdecode rresolves (r_boot store2) c15_msg_two "a" = Done (r_boot store2, false, None).
+Proof.
+  split; [reflexivity|].
+  destruct (r_run_history 50 (init_crew rcfg, []) c15_history_reacts) as [[c store]| |] eqn:H;
+    try (vm_compute in H; discriminate).
+  destruct (get_changed rcfg rcfg_eqb ord_id (r_set_machine c "a" (Some c15_named) None)) as [[c2 out] tm] eqn:HG.
+  exists c, store, c2, out, tm. split; [reflexivity|].
+  pose proof (C15_unresolvable_source_inert rcfg rreact rdecode rresolves rcfg_eqb ord_id ord_id_perm rcfg_eqb_sound
+                rreact_named _ _ _ _ "a" c15_named None _ _ _ H eq_refl eq_refl HG) as (_ & P1 & C1 & _ & B & P2).
+  vm_compute in H. injection H as <- <-.
+  split; [reflexivity|]. split; [eexists; vm_compute; reflexivity|]. split; [exact HG|].
+  split; [reflexivity|]. split; [apply P1|]. split; [exact C1|].
+  vm_compute in HG. injection HG as <- <- <-.
+  split; [reflexivity|]. split; [reflexivity|]. split; [exact B|apply P2].
+Qed.
+
+Definition c15_history_named : list (hop rcfg) :=
+  c15_history_reacts ++
+  [OpMsg (JObj [("to", JStr "captain"); ("update", JObj [("a", JObj [("spec", JObj [("name", JStr "N0")])])])]);
+   OpMsg c15_msg_two].
+Definition c15_named_later : list (hop rcfg) :=
+  [OpMsg (JObj [("tag", JStr "three"); ("then", JArr [JStr "z"])]);
+   OpMsg (JObj [("to", JStr "captain"); ("update", JObj [("a", c15_spec "L1" "fwd")])]);
+   OpMsg (JObj [("tag", JStr "four"); ("then", JArr [JStr "w"]); ("to", JStr "a")])].
+
+Example C15_unresolvable_through_captain :
+  exists c store,
+    r_run_history 50 (init_crew rcfg, []) c15_history_named = Done (c, store)
+    /\ live_view rcfg c "a" = Some (None, mk_ms "flip" [("by", JStr "L0"); ("log", JArr [JArr [JStr "one"; JNull]])])
+    /\ option_map (e_src rcfg) (aget "a" store) = Some (Some c15_named)
+    /\ store_view rcfg rresolves store "a" = live_view rcfg c "a"
+    /\ core_eq rcfg (r_boot store) c
+    /\ exists c2 outs,
+         run_outputs rcfg rreact rdecode rresolves rcfg_eqb ord_id 50 c c15_named_later = Done (c2, outs)
+         /\ run_outputs rcfg rreact rdecode rresolves rcfg_eqb ord_id 50 (r_boot store) c15_named_later = Done (c2, outs)
+         /\ outs = [[]; []; [[JStr "w"]]].
+Proof.
+  destruct (r_run_history 50 (init_crew rcfg, []) c15_history_named) as [[c store]| |] eqn:H;
+    try (vm_compute in H; discriminate).
+  exists c, store. split; [reflexivity|].
+  assert (E : ends_with_msg rcfg c15_history_named).
+  { eexists (removelast c15_history_named), _. reflexivity. }
+  pose proof (C15_store_tracks_crew rcfg rreact rdecode rresolves rcfg_eqb ord_id ord_id_perm rcfg_eqb_sound _ _ _ _ H E "a") as T.
+  pose proof (C15_restart_unobservable rcfg rreact rdecode rresolves rcfg_eqb ord_id ord_id_perm rcfg_eqb_sound rreact_named
+                _ _ _ _ H E) as (R & _ & _).
+  vm_compute in H. injection H as <- <-.
+  split; [reflexivity|]. split; [reflexivity|]. split; [exact T|]. split; [exact R|].
   vm_compute. eexists _, _. repeat split.
 Qed.
